@@ -34,6 +34,14 @@ reg_type = z3.Function('reg_type', Ref, Ref)             # Registration::type of
 reg_pet = z3.Function('reg_path_entry_type', Ref, Ref)
 reg_kind = z3.Function('reg_kind', Ref, Int)
 py_int = z3.Function('py_int', Int, Ref)                 # py::int_(i)
+py_bool = z3.Function('py_bool', Bool, Ref)              # py::bool_(b)
+py_str = z3.Function('py_str', Str, Ref)                 # py::str(s)
+py_as_bool = z3.Function('py_as_bool', Ref, Bool)        # bool(o) for engine-owned / immutable objects
+py_as_str = z3.Function('py_as_str', Ref, Str)
+py_as_int = z3.Function('py_as_int', Ref, Int)
+py_is_list = z3.Function('py_is_list', Ref, Bool)        # PyList_Check
+py_is_tuple = z3.Function('py_is_tuple', Ref, Bool)      # PyTuple_Check
+py_is_type = z3.Function('py_is_type', Ref, Bool)        # PyType_Check
 iter_len = z3.Function('iter_len', Ref, Int)             # number of items an iterable yields (ghost; >= 0)
 iter_item = z3.Function('iter_item', Ref, Int, Ref)      # i-th item an iterable yields (ghost)
 
@@ -315,5 +323,14 @@ class WFView:
                                                  py_len(OK(i)) == A(i))), patterns=[OK(i)]),
                 z3.ForAll([i], z3.Implies(z3.And(inr, C(i) != NULL), z3.And(reg_type(C(i)) != NULL, reg_pet(C(i)) != NULL)),
                           patterns=[C(i)]),
+                # concrete Python types of the payload (what the flatten functions store)
+                z3.ForAll([i], z3.Implies(z3.And(inr, isdict), py_is_list(D(i))), patterns=[D(i)]),
+                z3.ForAll([i], z3.Implies(z3.And(inr, K(i) == KIND['DefaultDict']),
+                                          z3.And(py_is_tuple(D(i)), py_is_list(py_item(D(i), 1)))), patterns=[D(i)]),
+                z3.ForAll([i], z3.Implies(z3.And(inr, z3.Or(K(i) == KIND['NamedTuple'], K(i) == KIND['StructSequence'])),
+                                          py_is_type(D(i))), patterns=[D(i)]),
+                z3.ForAll([i], z3.Implies(z3.And(inr, K(i) == KIND['Custom']), D(i) != NULL), patterns=[D(i)]),
+                z3.ForAll([i], z3.Implies(z3.And(inr, E(i) != NULL), py_is_tuple(E(i))), patterns=[E(i)]),
+                z3.ForAll([i], z3.Implies(z3.And(inr, OK(i) != NULL), py_is_list(OK(i))), patterns=[OK(i)]),
             ]
         return ax
